@@ -16,3 +16,12 @@ package raft
 //@   assert @DeleteKey#0 {C07,C20} apply-delete-db: hasdb(arg0) && dbof(arg0) == request.Database && arg1 == request.Key
 //@   assert @GetHandlerFuncParams#0 {C07,C20} apply-command-db: hasdb(arg0) && dbof(arg0) == request.Database && arg1 == request.CMD && arg2 == nil
 //@   modifies *
+
+// Installing a raft snapshot puts every key back in its own database together with its deadline (one SetExpiry per key
+// visited, with that key's recorded deadline). Decoding the snapshot (io, encoding/json) is outside the proof.
+//@ func (*FSM).Restore props C07
+//@   assert @SetValues#0 {C07,C20} restore-db: hasdb(arg0) && dbof(arg0) == database
+//@   assert @SetExpiry#0 {C07,C20} restore-deadline: hasdb(arg0) && dbof(arg0) == database && arg1 == key && arg2 == keyData.ExpireAt
+//@   loop 1
+//@     iteration {C07} every-key-gets-its-deadline: calls(SetExpiry) == atheader(calls(SetExpiry)) + 1
+//@   modifies *
